@@ -118,6 +118,7 @@ def run (st : St) (args : List String) : St × String :=
   | "sd.history" :: _ => (st, "recorded")
   | "sd.samename" :: _ => (st, "ok")    -- a registration is one atomic step (Tie/C15): one_holder_per_name on every order
   | "sd.stress" :: _ => (st, "ok")      -- atomic steps: no interleaving breaks the registry
+  | "sd.updaterace" :: _ => (st, "ok")  -- an update is one step of the machine: after the removal it finds nothing to update (inv_update, update_keeps_name_and_id)
   | "sd.evrace" :: _ => (st, "ok")      -- a step and its event are one action: events follow the transitions (events_once_per_transition)
   | "sd.lin" :: h =>
     let rec parse : List String → Nat → St → List HOp → St × List HOp
